@@ -403,3 +403,26 @@ def check_postorder_emptiness(ctx, f: FuncInfo, rule="ORD-postorder"):
               f"{f.short} decides whether `{c}` is empty (`{short(early[0].test, 50) if early else ''}`) before - or without unconditionally - recursing into it: "
               "a container whose content is pruned afterwards stays in the result although it is empty")
   return n
+
+
+def recursive_child_loops(f: FuncInfo):
+  """The for-loops of f whose body calls f again (a walk over children)."""
+  out = []
+  for lp in own_nodes(f.node):
+    if isinstance(lp, ast.For) and any(isinstance(c, ast.Call) and unparse(c.func).split(".")[-1] == f.name for st in lp.body for c in ast.walk(st)):
+      out.append(lp)
+  return out
+
+
+def check_recursive_walkers(ctx, funcs, rule="TRAV-rec", exempt: typing.Optional[typing.Dict[str, str]] = None):
+  """A function that walks a tree by calling itself on every child reaches that child loop on every
+  path: an early return in front of it (for some kind of element, say) silently stops the walk there,
+  and everything below is never visited."""
+  exempt = exempt or {}
+  n = 0
+  for f in funcs:
+    loops = recursive_child_loops(f)
+    if not loops or f.qualname in exempt:
+      continue
+    n += check_loop_reached(ctx, f, lambda x: any(x is lp for lp in loops), "the walk descends into the children of every element", rule=rule)
+  return n
